@@ -6,11 +6,14 @@ import (
 	"context"
 	"encoding/json"
 	"fmt"
+	"github.com/creachadair/jrpc2/channel"
 	"sort"
 	"strings"
 	"sync"
 	"testing"
 	"time"
+	"unicode/utf16"
+	"unicode/utf8"
 
 	"github.com/creachadair/jrpc2"
 	"github.com/creachadair/jrpc2/handler"
@@ -45,7 +48,9 @@ type world struct {
 // anon is an assigner that cannot list its names (not a jrpc2.Namer).
 type anon struct{ m handler.Map }
 
-func (a anon) Assign(ctx context.Context, method string) jrpc2.Handler { return a.m.Assign(ctx, method) }
+func (a anon) Assign(ctx context.Context, method string) jrpc2.Handler {
+	return a.m.Assign(ctx, method)
+}
 
 func (w *world) build(n ANode, path string) jrpc2.Assigner {
 	if n.Kind == "anon" {
@@ -182,6 +187,90 @@ func names(n ANode) []string {
 	}
 	sort.Strings(out)
 	return out
+}
+
+// asciiJSON renders s as a JSON string using escapes wherever JSON allows one.
+func asciiJSON(s string) string {
+	var sb strings.Builder
+	sb.WriteByte('"')
+	first := true
+	for _, r := range s {
+		switch {
+		case r == '/':
+			sb.WriteString(`\/`)
+		case r == '"' || r == '\\':
+			sb.WriteByte('\\')
+			sb.WriteRune(r)
+		case r >= 0x10000:
+			r1, r2 := utf16.EncodeRune(r)
+			fmt.Fprintf(&sb, `\u%04x\u%04x`, r1, r2)
+		case r < 0x20 || r > 0x7e || (first && r >= 'a' && r <= 'z'):
+			fmt.Fprintf(&sb, `\u%04x`, r)
+		default:
+			sb.WriteRune(r)
+		}
+		first = false
+	}
+	sb.WriteByte('"')
+	return sb.String()
+}
+
+func rawPhase(w *world, c Case, root jrpc2.Assigner, start time.Time) *engine.Verdict {
+	cli, srvEnd := channel.Direct()
+	srv := jrpc2.NewServer(recorder{w, root}, &jrpc2.ServerOptions{DisableBuiltin: c.DisableBuiltin, StartTime: start}).Start(srvEnd)
+	old := w.srv
+	w.srv = srv
+	defer func() {
+		cli.Close()
+		srv.Wait()
+		w.srv = old
+	}()
+	for i, name := range c.Names {
+		if name == "" || !utf8.ValidString(name) {
+			continue
+		}
+		req := fmt.Sprintf(`{"jsonrpc":"2.0","id":%d,"method":%s,"params":{"n":%d}}`, i+1, asciiJSON(name), i)
+		if err := cli.Send([]byte(req)); err != nil {
+			v := engine.Failf("C17/raw", "send: %v", err)
+			return &v
+		}
+		rsp, err := cli.Recv()
+		if err != nil {
+			v := engine.Failf("C17/raw", "no reply to %s: %v", req, err)
+			return &v
+		}
+		var got struct {
+			Result struct{ Tag, Method string }
+			Error  *struct{ Code int }
+		}
+		if err := json.Unmarshal(rsp, &got); err != nil {
+			v := engine.Failf("C17/raw", "reply %s: %v", rsp, err)
+			return &v
+		}
+		reserved := !c.DisableBuiltin && strings.HasPrefix(name, "rpc.")
+		want := ""
+		if !reserved {
+			want = resolve(c.Tree, "", name)
+		}
+		switch {
+		case reserved && name == "rpc.serverInfo":
+			if got.Error != nil {
+				v := engine.Failf("C17/serverinfo", "rpc.serverInfo written as %s failed: %s", asciiJSON(name), rsp)
+				return &v
+			}
+		case want == "":
+			if got.Error == nil || got.Error.Code != -32601 {
+				v := engine.Failf("C17/unknown-name-served", "request %s: reply %s, want method-not-found", req, rsp)
+				return &v
+			}
+		default:
+			if got.Error != nil || got.Result.Tag != want || got.Result.Method != name {
+				v := engine.Failf("C17/wrong-handler", "request %s (method %q): reply %s, the documented lookup gives handler %q", req, name, rsp, want)
+				return &v
+			}
+		}
+	}
+	return nil
 }
 
 func run(_ *testing.T, c Case) engine.Verdict {
@@ -325,6 +414,13 @@ func run(_ *testing.T, c Case) engine.Verdict {
 			return engine.Failf("C17/assigner-asked", "batch: the assigner was shown (method, inbound id) %q, the members it must see are %q", gotAsked, wantAsked)
 		}
 		labels = append(labels, "batch-with-repeated-names")
+	}
+	// The same names once more as raw JSON the way an ASCII-only encoder writes
+	// them (\uXXXX for everything outside printable ASCII, surrogate pairs for
+	// astral runes, the solidus escaped, one letter escaped): it is the decoded
+	// name that is dispatched.
+	if p := rawPhase(w, c, root, start); p != nil {
+		return *p
 	}
 	w.mu.Lock()
 	flags := append([]string(nil), w.flags...)
